@@ -86,25 +86,23 @@ static int op_set_si(int argc, tok_t *a, out_t *o) {
 #define OP2(name, fn) static int op_##name(int c, tok_t *a, out_t *o) { return do2(fn, c, a, o); }
 #define OPUI(name, fn, lim) static int op_##name(int c, tok_t *a, out_t *o) { return doui(fn, lim, c, a, o); }
 #define OP1UI(name, fn, lim) static int op_##name(int c, tok_t *a, out_t *o) { return do1ui(fn, lim, c, a, o); }
-OP3(add, mpz_add) OP3(sub, mpz_sub) OP3(mul, mpz_mul) OP3(and, mpz_and) OP3(ior, mpz_ior) OP3(xor, mpz_xor)
-OP3(addmul, mpz_addmul) OP3(submul, mpz_submul)
+OP3(add, mpz_add) OP3(sub, mpz_sub)
 OP2(set, mpz_set) OP2(neg, mpz_neg) OP2(abs, mpz_abs) OP2(com, mpz_com)
-OPUI(add_ui, mpz_add_ui, 0) OPUI(sub_ui, mpz_sub_ui, 0) OPUI(mul_ui, mpz_mul_ui, 0)
-OPUI(addmul_ui, mpz_addmul_ui, 0) OPUI(submul_ui, mpz_submul_ui, 0)
+OPUI(add_ui, mpz_add_ui, 0) OPUI(sub_ui, mpz_sub_ui, 0)
 OPUI(mul_2exp, mpz_mul_2exp, 1UL << 20) OPUI(tdiv_q_2exp, mpz_tdiv_q_2exp, 0)
+OP1UI(set_ui, mpz_set_ui, 0)
+#ifdef ALLOCSAFE_TODO   /* shapes ready for the functions not modelled yet (no handler on the Lean side) */
+OP3(mul, mpz_mul) OP3(and, mpz_and) OP3(ior, mpz_ior) OP3(xor, mpz_xor) OP3(addmul, mpz_addmul) OP3(submul, mpz_submul)
+OPUI(mul_ui, mpz_mul_ui, 0) OPUI(addmul_ui, mpz_addmul_ui, 0) OPUI(submul_ui, mpz_submul_ui, 0)
 OPUI(fdiv_q_2exp, mpz_fdiv_q_2exp, 0) OPUI(cdiv_q_2exp, mpz_cdiv_q_2exp, 0)
-OP1UI(set_ui, mpz_set_ui, 0) OP1UI(setbit, mpz_setbit, 1UL << 20) OP1UI(clrbit, mpz_clrbit, 1UL << 20)
-OP1UI(combit, mpz_combit, 1UL << 20)
+OP1UI(setbit, mpz_setbit, 1UL << 20) OP1UI(clrbit, mpz_clrbit, 1UL << 20) OP1UI(combit, mpz_combit, 1UL << 20)
+#endif
 
 const opdef_t ops_allocsafe[] = {
-  {"as_add", op_add}, {"as_sub", op_sub}, {"as_mul", op_mul}, {"as_and", op_and}, {"as_ior", op_ior}, {"as_xor", op_xor},
-  {"as_addmul", op_addmul}, {"as_submul", op_submul},
+  {"as_add", op_add}, {"as_sub", op_sub},
   {"as_set", op_set}, {"as_neg", op_neg}, {"as_abs", op_abs}, {"as_com", op_com},
-  {"as_add_ui", op_add_ui}, {"as_sub_ui", op_sub_ui}, {"as_mul_ui", op_mul_ui},
-  {"as_addmul_ui", op_addmul_ui}, {"as_submul_ui", op_submul_ui},
+  {"as_add_ui", op_add_ui}, {"as_sub_ui", op_sub_ui},
   {"as_mul_2exp", op_mul_2exp}, {"as_tdiv_q_2exp", op_tdiv_q_2exp},
-  {"as_fdiv_q_2exp", op_fdiv_q_2exp}, {"as_cdiv_q_2exp", op_cdiv_q_2exp},
   {"as_set_ui", op_set_ui}, {"as_set_si", op_set_si},
-  {"as_setbit", op_setbit}, {"as_clrbit", op_clrbit}, {"as_combit", op_combit},
   {0, 0}
 };
